@@ -31,7 +31,12 @@ def table(T):
     add('__truediv__', 2, 'num', lambda t, u: t / u, lambda a, b: a / b, nonlinear=True)
     add('__imul__', 2, 'num', lambda t, u: t.__imul__(u), lambda a, b: a * b, inplace=True, nonlinear=True)
     add('__itruediv__', 2, 'num', lambda t, u: t.__itruediv__(u), lambda a, b: a / b, inplace=True, nonlinear=True)
-    add('copy_', 2, 'num', lambda t, u: (t.copy_(u), t)[1], lambda a, b: b.clone(), inplace=True, other_unchanged=True)
+    add('copy_', 2, 'num', lambda t, u: (t.copy_(u), t)[1], lambda a, b: b.clone(), inplace=True, replaces_storage=True)
+    # a copy is independent of its source: a later in-place operation on either must not show through
+    add('copy_then_neg_dst', 2, 'num', lambda t, u: (t.copy_(u), t.neg_(), t)[2], lambda a, b: b.neg(), inplace=True, replaces_storage=True)
+    add('copy_then_neg_src', 2, 'num', lambda t, u: (t.copy_(u), u.neg_(), t)[2], lambda a, b: b.clone(), inplace=True, replaces_storage=True, mutates_other=True)
+    add('clone_then_neg', 1, 'num', lambda t: (lambda c: (c.neg_(), t)[1])(t.clone()), lambda a: a)
+    add('clone_then_neg_src', 1, 'num', lambda t: (lambda c: (t.neg_(), c)[1])(t.clone()), lambda a: a.clone(), mutates_self=True)
     # ---- with scalars
     for c in (0.0, 2.0, -1.5, INF):
         add(f'add_scalar[{c}]', 1, 'num', (lambda c: lambda t: t.add(c))(c), (lambda c: lambda a: a + c)(c))
